@@ -40,10 +40,13 @@ def add_defaults(doc, r, p=0.35):
         for k, ps in s["properties"].items():
             if k in req or not isinstance(ps, dict) or "$ref" in ps or r.random() > p:
                 continue
-            if ps.get("type") not in ("string", "integer", "boolean", "number", "array") and "enum" not in ps:
+            is_map = ps.get("type") == "object" and not ps.get("properties") and isinstance(ps.get("additionalProperties"), dict)
+            if ps.get("type") not in ("string", "integer", "boolean", "number", "array") and "enum" not in ps and not is_map:
                 continue
             try:
                 v = ig.inst(ps, 0, minimal=r.random() < 0.3)
+                if (is_map or ps.get("type") == "array") and not v:
+                    v = ig.inst(ps, 0, minimal=False)   # prefer a NON-empty default for containers
             except Exception:
                 continue
             if pipeline.within_i64(v) and oracle.valid_against(ps, v, defs):
@@ -82,6 +85,33 @@ def gen_docs(prop, seed, n, profile="F", replay=None, max_depth=3, features=None
             if any(isinstance(s_, dict) and s_.get("$ref") == "#/definitions/" + nm for nm, s_ in doc["definitions"].items()):
                 continue  # bare self-alias: recorded finding KF-C01-2
             out.append(("r%04d" % i, doc, ["recursive_graph", "ref"]))
+    # optional container members (map / array / set) whose schema default is NOT empty: an instance that carries
+    # the member as {} / [] must keep it (or restore exactly it) through the round trip
+    if defaults:
+        vals = [({"type": "string"}, "standard"), ({"type": "integer"}, 7), ({"type": "boolean"}, True),
+                ({"type": "string", "enum": ["lo", "hi"]}, "hi"), ({}, {"k": [1]}),
+                ({"type": "array", "items": {"type": "integer"}}, [1, 2])]
+        for i in range(10):
+            r = util.rng(seed, prop, "cdef", i)
+            props = {"name": {"type": "string"}}
+            for j in range(r.randrange(1, 4)):
+                vs, vv = r.choice(vals)
+                shape = r.choice(["map", "map", "array", "set"])
+                if shape == "map":
+                    ps = {"type": "object", "additionalProperties": dict(vs) if vs else True,
+                          "default": {r.choice(["tier", "a b", "x"]): vv}}
+                elif shape == "array":
+                    ps = {"type": "array", "items": dict(vs), "default": [vv]}
+                else:
+                    ps = {"type": "array", "items": {"type": "string"}, "uniqueItems": True, "default": ["u"]}
+                props["c%d" % j] = ps
+            inner = {"type": "object", "properties": props, "required": ["name"]}
+            doc = {"definitions": {"Holder": inner}} if i % 3 else \
+                {"definitions": {"Holder": {"oneOf": [dict(inner, properties=dict(props, kind={"type": "string", "enum": ["a"]}),
+                                                            required=["name", "kind"]),
+                                                       {"type": "object", "properties": {"kind": {"type": "string", "enum": ["b"]}},
+                                                        "required": ["kind"]}]}}}
+            out.append(("cd%03d" % i, doc, ["defaults", "container_default", "object"]))
     # pinned corpus documents are always included
     cdir = os.path.join(util.VERIF, "corpus", prop)
     if os.path.isdir(cdir):
